@@ -53,6 +53,8 @@ AWKWARD = [
     "'a' 'b'", "x' y' z", 'x" y" z', "\\", "a\\'b", "loop_ x", "data_x y", ";a b", "#a b", "_a b", "$a b", "[a] b",
 ]
 PLAIN = ["A", "CA", "1", "42", "ALA", "0.123", "HETATM", "x1", "N", "abc"]
+# what would be line folding in CIF 1.1 (a text field opening with a backslash, lines ending in one) is plain text here
+AWKWARD += ["\\\nfoo", "a\\\nb", "\\\n", "\\\nfirst\\\nsecond", "C:\\temp\\x", "end\\"]
 AWKWARD += ["x" * 300, "a b " * 60, "'" * 7, "line\n" * 12 + "end", " " * 5, "\t\t", "a" + " " * 40 + "b"]
 
 
